@@ -272,6 +272,9 @@ func (ex *Exec) cellOf(v Value) *Cell {
 		for i, e := range x.E {
 			ao.E[i] = ex.cellOf(e)
 		}
+		if h, ok := ex.digestVals[x]; ok {
+			ex.digests[ao] = h
+		}
 		c.V = ao
 	default:
 		c.V = v
@@ -314,6 +317,11 @@ func (ex *Exec) store(c *Cell, v Value) {
 		}
 		for i, e := range s.E {
 			ex.store(e, av.E[i])
+		}
+		if h, ok := ex.digestVals[av]; ok {
+			ex.digests[s] = h
+		} else {
+			delete(ex.digests, s)
 		}
 	default:
 		c.V = v
